@@ -45,7 +45,7 @@ class Main(Part):
                 "thorough": dict(examples=3000, shards=16, seconds=600)}[tier]
 
     def strategy(self, tier):
-        return gen.corpus_case(max_extent=4 if tier == "quick" else 6, spacetime_ratio=10 ** 9, static_only=False)
+        return gen.corpus_case(max_extent=4 if tier == "quick" else 6, spacetime_ratio=None, static_only=False)
 
     def run_case(self, case):
         spec = case["spec"]
